@@ -1032,6 +1032,12 @@ Section Facts.
   (* ---------------------------------------------------------------- no rejection is an artefact of fuel *)
   (* the request parser of every reachable state satisfies the invariant under which
      Http/ParserFacts.v proves that parse never returns Err OutOfFuel *)
+  Lemma parser_inv_clear p sz : PM.Http.ParserFacts.parser_inv p ->
+    PM.Http.ParserFacts.parser_inv (set_buffer_size p None sz).
+  Proof.
+    intros [A B]. split; [now apply PM.Http.ParserFacts.pinv_sbs|cbn; discriminate].
+  Qed.
+
   Lemma hd_parser_inv h d : PM.Http.ParserFacts.parser_inv (request h) ->
     PM.Http.ParserFacts.parser_inv (request (fst (hd h d))).
   Proof.
@@ -1039,6 +1045,7 @@ Section Facts.
     all: hsimpl; rewrite ?is_nil_app_cons; hsimpl;
       try match goal with |- context [is_nil (hq ?y)] => destruct (is_nil (hq y)) end; hsimpl.
     all: try exact Hi.
+    all: try apply parser_inv_clear.
     all: eapply PM.Http.ParserFacts.parse_inv; eauto.
   Qed.
 
